@@ -416,25 +416,11 @@ theorem urlsOf_append (a b : List Rec) : urlsOf (a ++ b) = urlsOf a ++ urlsOf b 
 theorem mem_urlsOf {r : Rec} {rs : List Rec} (h : r ∈ external rs) : r.url ∈ urlsOf rs := by
   simp only [urlsOf, List.mem_map]; exact ⟨r, h, rfl⟩
 
-theorem not_fails_of_clean {τ : Type} (N : Normaliser τ) (T0 : τ) (L : Laws N T0) (T : τ) (b : List Rec)
-    (hb : hasBadUrl b = false) : N.fails T (urlsOf b) = false := by
-  cases hf : N.fails T (urlsOf b) with
-  | false => rfl
-  | true =>
-    obtain ⟨u, hu, hbu⟩ := L.fails_only_bad T _ hf
-    simp only [urlsOf, List.mem_map] at hu
-    obtain ⟨r, hr, rfl⟩ := hu
-    have : hasBadUrl b = true := by
-      simp only [hasBadUrl, List.any_eq_true]; exact ⟨r, hr, hbu⟩
-    rw [hb] at this; cases this
-
-/-- Invariant of a restart-free run: the tree is the one learnt from all URLs so far, and the aggregation
-    is (as a map) the reference attribution of all records so far under the CURRENT normaliser. -/
 def Inv {τ : Type} (N : Normaliser τ) (T0 : τ) (prev : List Rec) (s : τ × Agg) : Prop :=
   s.1 = N.learn T0 (urlsOf prev) ∧ AggEq s.2 (bagAgg (N.norm s.1) (external prev))
 
 theorem step_inv {τ : Type} (N : Normaliser τ) (T0 : τ) (L : Laws N T0) (prev b : List Rec) (s : τ × Agg)
-    (h : Inv N T0 prev s) (hb : hasBadUrl b = false) : Inv N T0 (prev ++ b) (step N s.1 s.2 b) := by
+    (h : Inv N T0 prev s) : Inv N T0 (prev ++ b) (step N s.1 s.2 b) := by
   obtain ⟨T, A⟩ := s
   obtain ⟨hT, hA⟩ := h
   simp only at hT hA
@@ -443,9 +429,7 @@ theorem step_inv {τ : Type} (N : Normaliser τ) (T0 : τ) (L : Laws N T0) (prev
     simp only [step, List.isEmpty_nil, if_true, List.append_nil]
     exact ⟨hT, hA⟩
   · have hne : b.isEmpty = false := by cases b <;> simp_all
-    have hnf := not_fails_of_clean N T0 L T b hb
-    simp only [urlsOf] at hnf
-    simp only [step, hne, hnf, Bool.false_eq_true, if_false]
+    simp only [step, hne, Bool.false_eq_true, if_false]
     have hT' : N.learn T (List.map (fun r => r.url) (external b)) = N.learn T0 (urlsOf (prev ++ b)) := by
       rw [hT, L.learn_append, urlsOf_append]; rfl
     refine ⟨hT', ?_⟩
@@ -476,36 +460,18 @@ theorem step_inv {τ : Type} (N : Normaliser τ) (T0 : τ) (L : Laws N T0) (prev
     exact (combine_congr hA1 (extractAgg_eq_bag _ _)).trans (bagAgg_append _ _ _).symm
 
 theorem runBatches_inv {τ : Type} (N : Normaliser τ) (T0 : τ) (L : Laws N T0) (bs : List (List Rec))
-    (prev : List Rec) (s : τ × Agg) (h : Inv N T0 prev s) (hb : ∀ b ∈ bs, hasBadUrl b = false) :
+    (prev : List Rec) (s : τ × Agg) (h : Inv N T0 prev s) :
     Inv N T0 (prev ++ bs.flatten) (runBatches N s bs) := by
   induction bs generalizing prev s with
   | nil => simpa [runBatches] using h
   | cons b rest ih =>
     simp only [runBatches, List.flatten_cons, ← List.append_assoc]
-    exact ih (prev ++ b) _ (step_inv N T0 L prev b s h (hb b (by simp))) (fun c hc => hb c (by simp [hc]))
+    exact ih (prev ++ b) _ (step_inv N T0 L prev b s h)
 
 theorem inv_init {τ : Type} (N : Normaliser τ) (T0 : τ) (L : Laws N T0) : Inv N T0 [] (T0, {}) := by
   refine ⟨?_, ?_⟩
   · simp [urlsOf, external, L.learn_nil]
   · exact ⟨fun _ => rfl, fun _ => rfl, fun _ => rfl⟩
-
-theorem hasBadUrl_flatten (bs : List (List Rec)) (h : hasBadUrl bs.flatten = false) :
-    ∀ b ∈ bs, hasBadUrl b = false := by
-  intro b hb
-  cases hx : hasBadUrl b with
-  | false => rfl
-  | true =>
-    simp only [hasBadUrl, List.any_eq_true] at hx
-    obtain ⟨r, hr, hbad⟩ := hx
-    have : hasBadUrl bs.flatten = true := by
-      simp only [hasBadUrl, List.any_eq_true]
-      refine ⟨r, ?_, hbad⟩
-      simp only [external, List.mem_filter, List.mem_flatten] at hr ⊢
-      exact ⟨⟨b, hb, hr.1⟩, hr.2⟩
-    rw [h] at this; cases this
-
-
-/-! ### unique keys, plain assignment -/
 
 section Keys
 variable {κ κ' α β : Type} [DecidableEq κ]
@@ -719,6 +685,136 @@ theorem floorAgg_of_aligned (A : Agg) (h : TimesAligned A) : floorAgg A = A := b
       · simp only; omega
 
 
+/-! ### the `METHOD:::URL` key split (at the FIRST `:::`) -/
+
+theorem splitFirstDelim_cons_ne (c : Char) (xs : List Char) (hc : c ≠ ':') :
+    splitFirstDelim (c :: xs) = (splitFirstDelim xs).map fun p => (c :: p.1, p.2) := by
+  rw [splitFirstDelim.eq_def]
+  split
+  · rename_i heq; cases heq
+  · rename_i heq; injection heq with e _; exact absurd e hc
+  · rename_i heq; injection heq with e1 e2; subst e1 e2; rfl
+
+theorem splitFirstDelim_prefix (m u : List Char) (hm : m.all (· != ':') = true) :
+    splitFirstDelim (m ++ ':' :: ':' :: ':' :: u) = some (m, u) := by
+  induction m with
+  | nil => simp [splitFirstDelim]
+  | cons c rest ih =>
+    simp only [List.all_cons, Bool.and_eq_true, bne_iff_ne, ne_eq] at hm
+    rw [List.cons_append, splitFirstDelim_cons_ne _ _ hm.1, ih hm.2]
+    rfl
+
+/-- a key whose method has no `:` survives dump + split, whatever its URL -/
+theorem restoreKey_dumpKey (k : Key) (hm : cleanMethod k.1 = true) : restoreKey (dumpKey k) = k := by
+  obtain ⟨m, u⟩ := k
+  simp only [restoreKey, dumpKey, String.toList_append]
+  have : ":::".toList = [':', ':', ':'] := by decide
+  rw [this]
+  simp only [List.append_assoc, List.cons_append, List.nil_append]
+  rw [splitFirstDelim_prefix _ _ hm]
+  simp
+
+/-- every endpoint / consumer key carries a method from `ms` -/
+def MethodsIn (ms : List String) (A : Agg) : Prop :=
+  (∀ p ∈ A.endpoints, p.1.1 ∈ ms) ∧ (∀ p ∈ A.consumers, p.1.2.1 ∈ ms)
+
+theorem keysOK_of_methodsIn (ms : List String) (A : Agg) (h : MethodsIn ms A)
+    (hc : ∀ m ∈ ms, cleanMethod m = true) : KeysOK A :=
+  ⟨fun p hp => restoreKey_dumpKey _ (hc _ (h.1 p hp)), fun p hp => restoreKey_dumpKey _ (hc _ (h.2 p hp))⟩
+
+section KeyPred
+variable {κ κ' : Type} [DecidableEq κ]
+
+theorem forall_keys_upsert (Q : κ → Prop) (M : List (κ × EAgg)) (k : κ) (a : EAgg)
+    (hM : ∀ p ∈ M, Q p.1) (hk : Q k) : ∀ p ∈ upsert EAgg.combine M k a, Q p.1 := by
+  induction M with
+  | nil => intro p hp; simp [upsert] at hp; subst hp; exact hk
+  | cons q rest ih =>
+    obtain ⟨k', a'⟩ := q
+    simp only [upsert]
+    by_cases e : k' = k
+    · simp only [e, if_true]
+      intro p hp
+      rcases List.mem_cons.mp hp with h | h
+      · subst h; exact hk
+      · exact hM p (by simp [h])
+    · simp only [e, if_false]
+      intro p hp
+      rcases List.mem_cons.mp hp with h | h
+      · subst h; exact hM (k', a') (by simp)
+      · exact ih (fun q hq => hM q (by simp [hq])) p h
+
+theorem forall_keys_combineG (Q : κ → Prop) (A B : List (κ × EAgg))
+    (hA : ∀ p ∈ A, Q p.1) (hB : ∀ p ∈ B, Q p.1) : ∀ p ∈ combineG EAgg.combine A B, Q p.1 := by
+  unfold combineG
+  induction B generalizing A with
+  | nil => simpa using hA
+  | cons q rest ih =>
+    simp only [List.foldl_cons]
+    exact ih _ (forall_keys_upsert Q A q.1 q.2 hA (hB q (by simp))) (fun r hr => hB r (by simp [hr]))
+
+theorem forall_keys_extractKeyed (Q : κ → Prop) (l : List (κ × Rec)) (h : ∀ p ∈ l, Q p.1) :
+    ∀ p ∈ extractKeyed l, Q p.1 := by
+  have g : ∀ (M : List (κ × EAgg)), (∀ p ∈ M, Q p.1) → (∀ p ∈ l, Q p.1) →
+      ∀ p ∈ l.foldl (fun m p => upsert EAgg.combine m p.1 (single p.2)) M, Q p.1 := by
+    induction l with
+    | nil => intro M hM _; simpa using hM
+    | cons q rest ih =>
+      intro M hM hl
+      simp only [List.foldl_cons]
+      exact ih (fun r hr => h r (by simp [hr])) _ (forall_keys_upsert Q M q.1 _ hM (hl q (by simp)))
+        (fun r hr => hl r (by simp [hr]))
+  exact g [] (by simp) h
+
+theorem forall_keys_rekey (Q : κ → Prop) (g : κ → κ) (M : List (κ × EAgg))
+    (h : ∀ p ∈ M, Q (g p.1)) : ∀ p ∈ regroupG EAgg.combine (relabel g M), Q p.1 := by
+  apply forall_keys_combineG Q [] _ (by simp)
+  intro p hp
+  simp only [relabel, List.mem_map] at hp
+  obtain ⟨q, hq, rfl⟩ := hp
+  exact h q hq
+
+end KeyPred
+
+theorem methodsIn_step {τ : Type} (N : Normaliser τ) (T : τ) (A : Agg) (b : List Rec) (ms : List String)
+    (h : MethodsIn ms A) (hb : ∀ r ∈ external b, r.method ∈ ms) : MethodsIn ms (step N T A b).2 := by
+  unfold step
+  by_cases he : b.isEmpty = true
+  · simpa [he] using h
+  · simp only [he, Bool.false_eq_true, if_false]
+    have h1 : MethodsIn ms (if N.conv T (List.map (fun r => r.url) (external b)) = true
+        then A.rekey (N.norm (N.learn T (List.map (fun r => r.url) (external b)))) else A) := by
+      by_cases hc : N.conv T (List.map (fun r => r.url) (external b)) = true
+      · simp only [hc, if_true]
+        exact ⟨forall_keys_rekey (fun k : Key => k.1 ∈ ms) _ _ (fun p hp => h.1 p hp),
+               forall_keys_rekey (fun k : CKey => k.2.1 ∈ ms) _ _ (fun p hp => h.2 p hp)⟩
+      · simpa [hc] using h
+    refine ⟨forall_keys_combineG (fun k : Key => k.1 ∈ ms) _ _ h1.1 ?_,
+            forall_keys_combineG (fun k : CKey => k.2.1 ∈ ms) _ _ h1.2 ?_⟩
+    · apply forall_keys_extractKeyed (fun k : Key => k.1 ∈ ms)
+      intro p hp
+      simp only [List.mem_map] at hp
+      obtain ⟨r, hr, rfl⟩ := hp
+      exact hb r hr
+    · apply forall_keys_extractKeyed (fun k : CKey => k.2.1 ∈ ms)
+      intro p hp
+      simp only [List.mem_map] at hp
+      obtain ⟨r, hr, rfl⟩ := hp
+      exact hb r hr
+
+theorem methodsIn_floorAgg (ms : List String) (A : Agg) (h : MethodsIn ms A) : MethodsIn ms (floorAgg A) := by
+  constructor
+  · intro p hp
+    simp only [floorAgg, List.mem_map] at hp
+    obtain ⟨q, hq, rfl⟩ := hp
+    exact h.1 q hq
+  · intro p hp
+    simp only [floorAgg, List.mem_map] at hp
+    obtain ⟨q, hq, rfl⟩ := hp
+    exact h.2 q hq
+
+theorem methodsIn_empty (ms : List String) : MethodsIn ms {} := ⟨by simp, by simp⟩
+
 /-! ### totals (law-free) -/
 
 theorem SecEq.refl (a : Sem) : SecEq a a := ⟨rfl, rfl, rfl, fun _ => rfl, rfl, rfl⟩
@@ -806,20 +902,16 @@ theorem nodupKeys_step {τ : Type} (N : Normaliser τ) (T : τ) (A : Agg) (b : L
   by_cases he : b.isEmpty = true
   · simpa [he] using h
   · simp only [he, Bool.false_eq_true, if_false]
-    by_cases hf : N.fails T (List.map (fun r => r.url) (external b)) = true
-    · simpa [hf] using h
-    · simp only [hf, Bool.false_eq_true, if_false]
-      have h1 : NodupKeys (if N.conv T (List.map (fun r => r.url) (external b)) = true
-          then A.rekey (N.norm (N.learn T (List.map (fun r => r.url) (external b)))) else A) := by
-        by_cases hc : N.conv T (List.map (fun r => r.url) (external b)) = true
-        · simp only [hc, if_true]
-          exact ⟨nodup_regroupG _ _, nodup_regroupG _ _, h.2.2⟩
-        · simpa [hc] using h
-      exact ⟨nodup_combineG _ _ _ h1.1, nodup_combineG _ _ _ h1.2.1, nodup_combineG _ _ _ h1.2.2⟩
+    have h1 : NodupKeys (if N.conv T (List.map (fun r => r.url) (external b)) = true
+        then A.rekey (N.norm (N.learn T (List.map (fun r => r.url) (external b)))) else A) := by
+      by_cases hc : N.conv T (List.map (fun r => r.url) (external b)) = true
+      · simp only [hc, if_true]
+        exact ⟨nodup_regroupG _ _, nodup_regroupG _ _, h.2.2⟩
+      · simpa [hc] using h
+    exact ⟨nodup_combineG _ _ _ h1.1, nodup_combineG _ _ _ h1.2.1, nodup_combineG _ _ _ h1.2.2⟩
 
-/-- one successful `Run` adds exactly the batch's external records to the totals — for ANY normaliser -/
 theorem totals_step {τ : Type} (N : Normaliser τ) (T : τ) (A : Agg) (b prev : List Rec)
-    (h : Totals A prev) (hf : stepFails N T b = false) :
+    (h : Totals A prev) :
     Totals (step N T A b).2 (prev ++ external b) := by
   unfold step
   by_cases he : b.isEmpty = true
@@ -827,9 +919,7 @@ theorem totals_step {τ : Type} (N : Normaliser τ) (T : τ) (A : Agg) (b prev :
     subst this
     simpa [external] using h
   · have hne : b.isEmpty = false := by simpa using he
-    have hf' : N.fails T (List.map (fun r => r.url) (external b)) = false := by
-      simpa [stepFails, hne] using hf
-    simp only [hne, hf', Bool.false_eq_true, if_false]
+    simp only [hne, Bool.false_eq_true, if_false]
     -- re-keying does not move anything across methods / consumer tags
     have hA1 : Totals (if N.conv T (List.map (fun r => r.url) (external b)) = true
           then A.rekey (N.norm (N.learn T (List.map (fun r => r.url) (external b)))) else A) prev := by
@@ -862,7 +952,9 @@ theorem external_recsOf_batch (rs : List Rec) (rest : List Seg) :
   simp [recsOf, external_append]
 
 theorem runSegs_totals {τ : Type} (N : Normaliser τ) (T0 : τ) (segs : List Seg) (s : St τ) (prev : List Rec)
-    (ht : Totals s.agg prev) (hn : NodupKeys s.agg) (hr : FileRel s) (hok : RunOK N T0 s segs) :
+    (ms : List String) (hc : ∀ m ∈ ms, cleanMethod m = true) (hin : MethodsIn ms s.agg)
+    (hrecs : ∀ r ∈ external (recsOf segs), r.method ∈ ms)
+    (ht : Totals s.agg prev) (hn : NodupKeys s.agg) (hr : FileRel s) :
     Totals (runSegs N T0 s segs).agg (prev ++ external (recsOf segs)) ∧
     Totals (restore (runSegs N T0 s segs).file) (prev ++ external (recsOf segs)) := by
   induction segs generalizing s prev with
@@ -870,34 +962,41 @@ theorem runSegs_totals {τ : Type} (N : Normaliser τ) (T0 : τ) (segs : List Se
     simp only [runSegs, recsOf, external, List.filter_nil, List.append_nil]
     refine ⟨ht, ?_⟩
     rcases hr with hr | hr
-    · rw [hr, restore_persist_floor _ hn hok]; exact totals_floor _ _ ht
+    · rw [hr, restore_persist_floor _ hn (keysOK_of_methodsIn ms _ hin hc)]; exact totals_floor _ _ ht
     · rw [← hr]; exact ht
   | cons seg rest ih =>
     cases seg with
     | batch rs =>
-      obtain ⟨hf, hok'⟩ := hok
+      have hrs : ∀ r ∈ external rs, r.method ∈ ms := fun r hr' => hrecs r (by
+        rw [external_recsOf_batch]; exact List.mem_append_left _ hr')
+      have hrest : ∀ r ∈ external (recsOf rest), r.method ∈ ms := fun r hr' => hrecs r (by
+        rw [external_recsOf_batch]; exact List.mem_append_right _ hr')
       simp only [runSegs, external_recsOf_batch, ← List.append_assoc]
-      have hstep := totals_step N s.tree s.agg rs prev ht hf
+      have hstep := totals_step N s.tree s.agg rs prev ht
       have hnod := nodupKeys_step N s.tree s.agg rs hn
+      have hmeth := methodsIn_step N s.tree s.agg rs ms hin hrs
       by_cases he : rs.isEmpty = true
       · have hs : stepS N s rs = s := by simp [stepS, he]
         have : rs = [] := by cases rs <;> simp_all
         subst this
-        rw [hs] at hok' ⊢
-        simpa [external] using ih s prev ht hn hr hok'
+        rw [hs]
+        simpa [external] using ih s prev hin hrest ht hn hr
       · have hs : stepS N s rs = { tree := (step N s.tree s.agg rs).1, agg := (step N s.tree s.agg rs).2,
                                     file := persist (step N s.tree s.agg rs).2 } := by
-          simp [stepS, he, hf]
-        rw [hs] at hok' ⊢
-        exact ih _ _ hstep hnod (Or.inl rfl) hok'
+          simp [stepS, he]
+        rw [hs]
+        exact ih _ _ hmeth hrest hstep hnod (Or.inl rfl)
     | restart =>
-      obtain ⟨hk, hok'⟩ := hok
-      simp only [runSegs, recsOf]
-      refine ih _ prev ?_ (nodupKeys_restore _) (Or.inr rfl) hok'
+      simp only [runSegs, recsOf] at hrecs ⊢
       rcases hr with hr | hr
-      · simp only [hr]; rw [restore_persist_floor _ hn hk]; exact totals_floor _ _ ht
-      · simp only; rw [← hr]; exact ht
-
+      · have e : restore s.file = floorAgg s.agg := by
+          rw [hr]; exact restore_persist_floor _ hn (keysOK_of_methodsIn ms _ hin hc)
+        refine ih _ prev ?_ hrecs ?_ (nodupKeys_restore _) (Or.inr rfl)
+        · simp only [e]; exact methodsIn_floorAgg ms _ hin
+        · simp only [e]; exact totals_floor _ _ ht
+      · refine ih _ prev ?_ hrecs ?_ (nodupKeys_restore _) (Or.inr rfl)
+        · simp only [← hr]; exact hin
+        · simp only [← hr]; exact ht
 
 /-! ### the invariant `count = Σ status` along whole runs (restarts included) -/
 
@@ -971,41 +1070,27 @@ theorem aggOk_step {τ : Type} (N : Normaliser τ) (T : τ) (A : Agg) (b : List 
   by_cases he : b.isEmpty = true
   · simpa [he] using h
   · simp only [he, Bool.false_eq_true, if_false]
-    by_cases hf : N.fails T (List.map (fun r => r.url) (external b)) = true
-    · simpa [hf] using h
-    · simp only [hf, Bool.false_eq_true, if_false]
-      refine aggOk_combine _ _ ?_ (aggOk_extract _ _)
-      by_cases hc : N.conv T (List.map (fun r => r.url) (external b)) = true
-      · simpa [hc] using aggOk_rekey _ A h
-      · simpa [hc] using h
+    refine aggOk_combine _ _ ?_ (aggOk_extract _ _)
+    by_cases hc : N.conv T (List.map (fun r => r.url) (external b)) = true
+    · simpa [hc] using aggOk_rekey _ A h
+    · simpa [hc] using h
 
 theorem stepS_tree {τ : Type} (N : Normaliser τ) (s : St τ) (b : List Rec) :
     (stepS N s b).tree = (step N s.tree s.agg b).1 := by
   unfold stepS step
-  by_cases he : b.isEmpty = true
-  · simp [he]
-  · simp only [he, Bool.false_eq_true, if_false]
-    by_cases hf : stepFails N s.tree b = true <;> simp [hf]
+  by_cases he : b.isEmpty = true <;> simp [he]
 
 theorem stepS_agg {τ : Type} (N : Normaliser τ) (s : St τ) (b : List Rec) :
     (stepS N s b).agg = (step N s.tree s.agg b).2 := by
   unfold stepS
   by_cases he : b.isEmpty = true
   · simp [he, step]
-  · simp only [he, Bool.false_eq_true, if_false]
-    by_cases hf : stepFails N s.tree b = true
-    · have : N.fails s.tree (List.map (fun r => r.url) (external b)) = true := by
-        simpa [stepFails, he] using hf
-      simp [hf, step, he, this]
-    · simp [hf]
+  · simp [he]
 
 theorem stepS_file {τ : Type} (N : Normaliser τ) (s : St τ) (b : List Rec) :
     (stepS N s b).file = s.file ∨ (stepS N s b).file = persist (stepS N s b).agg := by
   unfold stepS
-  by_cases he : b.isEmpty = true
-  · simp [he]
-  · simp only [he, Bool.false_eq_true, if_false]
-    by_cases hf : stepFails N s.tree b = true <;> simp [hf]
+  by_cases he : b.isEmpty = true <;> simp [he]
 
 theorem runSegs_aggOk {τ : Type} (N : Normaliser τ) (T0 : τ) (segs : List Seg) (s : St τ)
     (h : AggOk s.agg) (hf : AggOk (restore s.file)) :
@@ -1244,21 +1329,30 @@ theorem batchInvariant_of_pairwise (l : List RunObs) (h : ∀ a ∈ l, ∀ b ∈
     exact ⟨fun p hp => h o (by simp) p (by simp [hp]),
            ih fun a ha b hb => h a (by simp [ha]) b (by simp [hb])⟩
 
-/-- in a restart-free run without rejected batches the file is always the dump of the aggregation -/
+/-- in a restart-free run the file is always the dump of the aggregation -/
 theorem runSegs_batches_file {τ : Type} (N : Normaliser τ) (T0 : τ) (bs : List (List Rec)) (s : St τ)
-    (hf : s.file = persist s.agg) (hok : RunOK N T0 s (bs.map Seg.batch)) :
-    (runSegs N T0 s (bs.map Seg.batch)).file = persist (runSegs N T0 s (bs.map Seg.batch)).agg ∧
-    KeysOK (runSegs N T0 s (bs.map Seg.batch)).agg := by
+    (hf : s.file = persist s.agg) :
+    (runSegs N T0 s (bs.map Seg.batch)).file = persist (runSegs N T0 s (bs.map Seg.batch)).agg := by
   induction bs generalizing s with
-  | nil => exact ⟨hf, hok⟩
+  | nil => exact hf
   | cons b rest ih =>
-    obtain ⟨hfail, hok'⟩ := hok
     simp only [List.map_cons, runSegs]
-    refine ih _ ?_ hok'
+    refine ih _ ?_
     unfold stepS
     by_cases he : b.isEmpty = true
     · simpa [he] using hf
-    · simp [he, hfail]
+    · simp [he]
+
+theorem runSegs_batches_methodsIn {τ : Type} (N : Normaliser τ) (T0 : τ) (bs : List (List Rec)) (s : St τ)
+    (ms : List String) (hin : MethodsIn ms s.agg) (hb : ∀ r ∈ external bs.flatten, r.method ∈ ms) :
+    MethodsIn ms (runSegs N T0 s (bs.map Seg.batch)).agg := by
+  induction bs generalizing s with
+  | nil => exact hin
+  | cons b rest ih =>
+    simp only [List.map_cons, runSegs]
+    refine ih _ ?_ (fun r hr => hb r (by simp [external_append, hr]))
+    rw [stepS_agg]
+    exact methodsIn_step N _ _ b ms hin (fun r hr => hb r (by simp [external_append, hr]))
 
 theorem runSegs_nodup {τ : Type} (N : Normaliser τ) (T0 : τ) (segs : List Seg) (s : St τ)
     (h : NodupKeys s.agg) : NodupKeys (runSegs N T0 s segs).agg := by
@@ -1273,77 +1367,5 @@ theorem runSegs_nodup {τ : Type} (N : Normaliser τ) (T0 : τ) (segs : List Seg
       simp only [runSegs]
       exact ih _ (nodupKeys_restore _)
 
-
-theorem failCount_zero {τ : Type} (N : Normaliser τ) (T0 : τ) (segs : List Seg) (s : St τ)
-    (hok : RunOK N T0 s segs) : failCount N T0 s segs = 0 := by
-  induction segs generalizing s with
-  | nil => rfl
-  | cons seg rest ih =>
-    cases seg with
-    | batch rs => obtain ⟨hf, hok'⟩ := hok; simp [failCount, hf, ih _ hok']
-    | restart => obtain ⟨_, hok'⟩ := hok; simp [failCount, ih _ hok']
-
-
-/-! ### the `METHOD:::URL` key split -/
-
-theorem splitDelim_ne_nil (l : List Char) : splitDelim l ≠ [] := by
-  fun_induction splitDelim l <;> simp_all
-
-theorem hasDelim_cons (x : Char) (xs : List Char)
-    (hne : ∀ rest, x :: xs = ':' :: ':' :: ':' :: rest → False) : hasDelim (x :: xs) = hasDelim xs := by
-  rw [hasDelim.eq_def]
-  split
-  · rename_i heq; exact absurd heq (hne _)
-  · rename_i heq; injection heq with _ e; rw [e]
-  · rename_i heq; cases heq
-
-theorem splitDelim_noDelim (l : List Char) (h : hasDelim l = false) : splitDelim l = [l] := by
-  fun_induction splitDelim l with
-  | case1 => rfl
-  | case2 rest ih => simp [hasDelim] at h
-  | case3 x xs hne hd tl heq ih =>
-    rw [hasDelim_cons x xs (fun rest e => by injection e with e1 e2; exact hne rest e1 e2)] at h
-    rw [ih h] at heq
-    simp at heq
-    obtain ⟨rfl, rfl⟩ := heq
-    rfl
-  | case4 x xs hne heq ih => exact absurd heq (splitDelim_ne_nil xs)
-
-theorem splitDelim_cons_ne (c : Char) (xs : List Char) (hc : c ≠ ':') :
-    splitDelim (c :: xs) = (match splitDelim xs with | h :: t => (c :: h) :: t | [] => [[c]]) := by
-  rw [splitDelim.eq_def]
-  split
-  · rename_i heq; cases heq
-  · rename_i heq; injection heq with e _; exact absurd e hc
-  · rename_i heq; injection heq with e1 e2; subst e1 e2; rfl
-
-theorem splitDelim_prefix (m u : List Char) (hm : m.all (· != ':') = true) :
-    splitDelim (m ++ ':' :: ':' :: ':' :: u) = m :: splitDelim u := by
-  induction m with
-  | nil => simp [splitDelim]
-  | cons c rest ih =>
-    simp only [List.all_cons, Bool.and_eq_true, bne_iff_ne, ne_eq] at hm
-    rw [List.cons_append, splitDelim_cons_ne _ _ hm.1, ih hm.2]
-
-theorem restoreKey_dumpKey (k : Key) (hm : k.1.toList.all (· != ':') = true)
-    (hu : hasDelim k.2.toList = false) : restoreKey (dumpKey k) = k := by
-  obtain ⟨m, u⟩ := k
-  simp only [restoreKey, dumpKey, String.toList_append]
-  have : ":::".toList = [':', ':', ':'] := by decide
-  rw [this]
-  simp only [List.append_assoc, List.cons_append, List.nil_append]
-  rw [splitDelim_prefix _ _ hm, splitDelim_noDelim _ hu]
-  simp
-
-
-theorem keysOK_of_cleanKeys (A : Agg) (he : ∀ p ∈ A.endpoints, cleanKey p.1 = true)
-    (hc : ∀ p ∈ A.consumers, cleanKey p.1.2 = true) : KeysOK A := by
-  refine ⟨fun p hp => ?_, fun p hp => ?_⟩
-  · have := he p hp
-    simp only [cleanKey, Bool.and_eq_true, Bool.not_eq_true'] at this
-    exact restoreKey_dumpKey _ this.1 this.2
-  · have := hc p hp
-    simp only [cleanKey, Bool.and_eq_true, Bool.not_eq_true'] at this
-    exact restoreKey_dumpKey _ this.1 this.2
 
 end LunarVerif.C15
